@@ -559,4 +559,57 @@ theorem C04_steady_history (s : Sys) (l : List Step) (hst : Steady s l)
     refine ⟨rb', rs', h1, Nat.le_trans hb1 h2, Nat.le_trans hs1 h3, fun bal => ?_⟩
     exact ⟨C04_passive_value_mono _ _ _ (Nat.le_trans hb1 h2), C04_passive_value_mono _ _ _ (Nat.le_trans hs1 h3)⟩
 
+/-! ### CheckSlashing, slash pending or not
+
+  The State query already reports the pools as the chain's delegations define them. CheckSlashing
+  stores exactly that answer, and the answer is a fixed point of the query: whoever sends a
+  CheckSlashing, in any state — with a slash still unrecognised or without —, the *reported* rates
+  and pools afterwards are the reported rates and pools before. -/
+
+private theorem actualState_fix (st : HubSt) (e : HubEnv) (bs ss : Nat) (hd : e.delegations ≠ [])
+    (hb : st.bSupplyQ e = .ok bs) (hs : st.sSupplyQ e = .ok ss)
+    (hle : st.bBond + st.sBond ≤ (e.delegations.map (·.2)).sum)
+    (hrb : st.bRate = rateOf st.bBond bs st.reqB) (hrs : st.sRate = rateOf st.sBond ss st.reqS) :
+    st.actualState e = .ok st := by
+  unfold actualState
+  rw [if_neg hd]
+  by_cases hz : st.bBond + st.sBond = 0
+  · rw [if_pos hz]
+  · rw [if_neg hz]
+    simp only [bind, Except.bind, hb, hs]
+    rw [if_neg (Nat.not_lt.mpr hle), ← hrb, ← hrs]
+    cases st; rfl
+
+theorem C04_state_query_idempotent (h st : HubSt) (e : HubEnv) (hx : h.actualState e = .ok st) :
+    st.actualState e = .ok st := by
+  have sp := actualState_spec h st e hx
+  have sb := sp.1
+  rcases sp.2 with ⟨_, rfl⟩ | ⟨bs, ss, hd, hz, hbs, hss, hrb, hrs, hp⟩
+  · exact hx
+  · have q1 : st.bSupplyQ e = .ok bs := by simp only [bSupplyQ, sb.bsei] at hbs ⊢; exact hbs
+    have q2 : st.sSupplyQ e = .ok ss := by simp only [sSupplyQ, sb.stsei] at hss ⊢; exact hss
+    refine actualState_fix st e bs ss hd q1 q2 ?_ (by rw [sb.reqB]; exact hrb) (by rw [sb.reqS]; exact hrs)
+    rcases hp with ⟨hle, e1, e2⟩ | ⟨_, _, hsum⟩
+    · rw [e1, e2]; exact hle
+    · rw [hsum]
+
+theorem C04_check_slashing_keeps_reported (h h' : HubSt) (e : HubEnv) (sender : Addr) (funds : List (Denom × Nat))
+    (ms : List Msg) (hx : hubExec h e sender funds .checkSlashing = .ok (h', ms)) :
+    h.actualState e = .ok h' ∧ h'.actualState e = .ok h' ∧ ms = [] := by
+  simp only [hubExec] at hx
+  split at hx
+  · cases hx
+  · exc_norm at hx
+    split at hx
+    · cases hx
+    · rename_i st hst
+      injection hx with hx; injection hx with e1 e2; subst e1; subst e2
+      exact ⟨hst, C04_state_query_idempotent h _ e hst, rfl⟩
+
+/-! Non-vacuity: a slash of one half is pending (books 10, delegated 5); CheckSlashing stores what the
+    query reported. -/
+example : ∃ st, ({ (default : HubSt) with bBond := 6, sBond := 4, bsei := some 101, stsei := some 102 }).actualState
+    { self := 100, now := 0, hubBalance := 0, delegations := [(201, 5)], supplyOf := fun _ => .ok 5,
+      validatorsOf := fun _ => .ok [] } = .ok st ∧ st.bBond = 3 ∧ st.sBond = 2 := ⟨_, rfl, by decide, by decide⟩
+
 end Krp
